@@ -57,9 +57,81 @@ def parseCmp : String → Option Cmp
   | "eq" => some .eq | "ne" => some .ne | "lt" => some .lt
   | "le" => some .le | "gt" => some .gt | "ge" => some .ge | _ => none
 
+def parseCondOp : String → Option CondOp
+  | "eq" => some .eq | "ne" => some .ne | "gt" => some .gt | "lt" => some .lt | _ => none
+
+def parseSimpOp : String → Option SimpOp
+  | "eq" => some .eq | "ne" => some .ne | "gt" => some .gt | "lt" => some .lt
+  | "ge" => some .ge | "le" => some .le | _ => none
+
+/-- `m` rows of `n` integers -/
+def takeRows (n : Nat) : Nat → List String → Option (List (List Int) × List String)
+  | 0, ws => some ([], ws)
+  | m+1, ws => do
+    let (row, r) ← takeInts n ws
+    let (rows, r) ← takeRows n m r
+    pure (row :: rows, r)
+
 /-- parse a propagator kind -/
 def parsePK (ws : List String) : Option PK :=
   match ws with
+  | "mul" :: r => do
+    let (x, r) ← parseView r; let (y, r) ← parseView r
+    let ([s], _) ← takeNats 1 r | none
+    pure (.mul x y s)
+  | "div" :: r => do
+    let (x, r) ← parseView r; let (y, r) ← parseView r
+    let ([s], _) ← takeNats 1 r | none
+    pure (.div x y s)
+  | "mod" :: r => do
+    let (x, r) ← parseView r; let (y, r) ← parseView r
+    let ([s], _) ← takeNats 1 r | none
+    pure (.modulo x y s)
+  | "alldiff" :: n :: r => do
+    let n ← n.toNat?; let (xs, _) ← takeNats n r
+    pure (.allDiff xs)
+  | "alleq" :: n :: r => do
+    let n ← n.toNat?; let (xs, _) ← takeNats n r
+    pure (.allEqual xs)
+  | ["between", l, m, u] => do
+    let l ← l.toNat?; let m ← m.toNat?; let u ← u.toNat?
+    pure (.between l m u)
+  | "count" :: n :: r => do
+    let n ← n.toNat?; let (xs, r) ← takeNats n r
+    let (t, r) ← parseView r
+    let ([c], _) ← takeNats 1 r | none
+    pure (.count xs t c)
+  | "atleast" :: n :: r => do
+    let n ← n.toNat?; let (xs, r) ← takeNats n r
+    let ([tv, k], _) ← takeInts 2 r | none
+    pure (.card .atLeast xs tv k)
+  | "atmost" :: n :: r => do
+    let n ← n.toNat?; let (xs, r) ← takeNats n r
+    let ([tv, k], _) ← takeInts 2 r | none
+    pure (.card .atMost xs tv k)
+  | "exactly" :: n :: r => do
+    let n ← n.toNat?; let (xs, r) ← takeNats n r
+    let ([tv, k], _) ← takeInts 2 r | none
+    pure (.card .exactly xs tv k)
+  | "element" :: n :: r => do
+    let n ← n.toNat?; let (arr, r) ← takeNats n r
+    let ([idx, val], _) ← takeNats 2 r | none
+    pure (.element arr idx val)
+  | "table" :: n :: r => do
+    let n ← n.toNat?; let (xs, r) ← takeNats n r
+    let (m :: r) := r | none
+    let m ← m.toNat?
+    let (ts, _) ← takeRows n m r
+    pure (.table xs ts)
+  | "ite" :: cop :: cv :: cval :: top :: tv :: tval :: r => do
+    let cop ← parseCondOp cop; let cv ← cv.toNat?; let cval ← parseInt? cval
+    let top ← parseSimpOp top; let tv ← tv.toNat?; let tval ← parseInt? tval
+    match r with
+    | ["noelse"] => pure (.ite cop cv cval top tv tval none)
+    | ["else", op, x, v] => do
+      let op ← parseSimpOp op; let x ← x.toNat?; let v ← parseInt? v
+      pure (.ite cop cv cval top tv tval (some (op, x, v)))
+    | _ => none
   | "leq" :: r => do let (x, r) ← parseView r; let (y, _) ← parseView r; pure (.leq x y)
   | "eq" :: r => do let (x, r) ← parseView r; let (y, _) ← parseView r; pure (.eq x y)
   | "neq" :: r => do let (x, r) ← parseView r; let (y, _) ← parseView r; pure (.neq x y)
